@@ -119,12 +119,18 @@ Section CAPI.
     split; [now apply H_ull|]. apply H_as_ull with (z := bits); [now apply H_ull|assumption].
   Qed.
 
-  (* the tree as it is: a later conversion of a narrow signed integer passes the
-     pattern without sign extension (upper bits zero is what is observed) *)
+  (* the fixed lowering is the extended one, whatever was converted before *)
+  Lemma int_signed_fixed first w bits : wf_w w -> in_range w bits ->
+    den (py_val_of true first A (VInt w true bits)) = PLong (sgn w bits) /\
+    exists r, o_as_ll A (py_val_of true first A (VInt w true bits)) = Some r /\ wrap w r = bits.
+  Proof. exact (int_signed w bits). Qed.
+
+  (* before the fix: a later conversion of a narrow signed integer passed the
+     pattern without sign extension *)
   Lemma narrow_unextended_loses_sign :
-    exists bits, in_range 8 bits /\ den (o_ll A bits) <> PLong (sgn 8 bits).
+    exists bits, in_range 8 bits /\ den (py_val_of false false A (VInt 8 true bits)) <> PLong (sgn 8 bits).
   Proof.
-    exists 255. split; [unfold in_range; cbn; lia|].
+    exists 255. split; [unfold in_range; cbn; lia|]. cbn [py_val_of orb].
     rewrite H_ll by (unfold in_range; cbn; lia). cbn. discriminate.
   Qed.
 
